@@ -74,7 +74,7 @@ def run(prop, tier, replay=None):
             stp = os.path.join(work, "st_%d.ndjson" % i)
             with open(stp, "w") as f:
                 for r in recs:
-                    f.write(json.dumps({k: r[k] for k in ("sc", "lookups", "loads", "nover", "nexp", "st", "stmid")}) + "\n")
+                    f.write(json.dumps({k: r[k] for k in ("sc", "lookups", "loads", "nover", "nexp", "st", "stmid", "churnnc")}) + "\n")
             dvp = os.path.join(work, "st_%d.dev.json" % i)
             sr = vlib.run_tlc(work, "StatsHist", os.path.join(vlib.SPEC, "StatsHist.cfg"), workers=1, timeout=600, heap="2g",
                               env_extra={"VERIF_TRACE": stp, "VERIF_DEVOUT": dvp})
@@ -99,8 +99,16 @@ def run(prop, tier, replay=None):
                 if r["diag"] and prop == "C02":
                     path = vlib.save_replay(prop, "c02-%s-%d" % (part[k]["policy"], part[k]["seed"]), [part[k]])
                     violations.append(("C02.abnormal_end", r["diag"], path))
+            if recs and prop == "C02":
+                for x in recs[0]["_stats_devs"]:
+                    if x["pred"].startswith("C02."):
+                        sc = part[x["rec"] - 1]
+                        path = vlib.save_replay(prop, "c02-%s-%d" % (sc["policy"], sc["seed"]), [sc])
+                        violations.append((x["pred"], x["detail"], path))
             if recs and prop == "C20":
                 for x in recs[0]["_stats_devs"]:
+                    if not x["pred"].startswith("C20."):
+                        continue
                     sc = part[x["rec"] - 1]
                     path = vlib.save_replay(prop, "c20-%s-%d" % (sc["policy"], sc["seed"]), [sc])
                     violations.append((x["pred"], x["detail"], path))
